@@ -59,6 +59,21 @@ def shiftCell {V : Type} (n0 len : Nat) (c : Cell V) : Cell V :=
 def deepCopyAll {V : Type} (n0 : Nat) (h : Heap (Cell V)) : Heap (Cell V) :=
   h ++ (h.take n0).map (shiftCell n0 h.length)
 
+/-- a copy that stops `k` levels down (`k = 1`: `dict(x)` / `copy.copy(x)`; `k = 2`:
+    `{key: copy.copy(v) for key, v in x.items()}`; …): the cells of the first `k` levels below `a` are
+    copied (without memo: an object reached twice is copied twice), everything deeper is shared with
+    the original.  Returns the new heap and the address of the copy. -/
+def levelCopy {V : Type} : Nat → Heap (Cell V) → Ref → Heap (Cell V) × Ref
+  | 0, h, a => (h, a)
+  | k + 1, h, a =>
+    match h[a]? with
+    | none => (h, a)
+    | some c =>
+      let r := c.refs.foldl (fun (acc : Heap (Cell V) × List Ref) x =>
+        let p := levelCopy k acc.1 x
+        (p.1, acc.2 ++ [p.2])) (h, [])
+      (r.1 ++ [{ data := c.data, refs := r.2 }], r.1.length)
+
 /-- reference-valued program variables: `self._genome … self._gmod` and numbered local variables
     (`mcfg`, `misc`, … — the translator numbers the locals of each method) -/
 inductive Reg | genome | geno | pheno | bval | gmod | loc (n : Nat)
@@ -84,6 +99,7 @@ inductive Stmt
   | copyStart (dst : Reg) (src : Nat)                   -- `X = copy.deepcopy(self.start_Y)`
   | aliasStart (dst : Reg) (src : Nat)                  -- `X = self.start_Y`
   | shallowCopyStart (dst : Reg) (src : Nat)            -- `X = dict(self.start_Y)` / `copy.copy(self.start_Y)`
+  | levelCopyStart (dst : Reg) (src : Nat) (k : Nat)    -- `X = {key: copy.copy(v) for key, v in self.start_Y.items()}` (k = 2), …
   | setT0                                               -- `self.t_cur = 0`
   | tick                                                -- `self.t_cur += 1`
   | newDict (dst : Reg)                                 -- `x = {}`
@@ -273,6 +289,12 @@ def execS (ops : Ops σ V) (cfg : Cfg V) (s : Stmt) (st : State σ V) : State σ
   | .aliasStart dst src =>
     match st.start[src]? with
     | some (some a) => { st with regs := setReg st.regs dst (some a) }
+    | _ => st.fail
+  | .levelCopyStart dst src k =>
+    match st.start[src]? with
+    | some (some a) =>
+      let p := levelCopy k st.heap a
+      { st with heap := p.1, regs := setReg st.regs dst (some p.2) }
     | _ => st.fail
   | .initIfNeeded =>
     if st.start.all Option.isSome then st else
@@ -464,6 +486,28 @@ def specAdvance (R : Item V → Item V → Bool) (ngen t : Nat) (V0 : List (Opti
 def repsOf (rep0 : Int) (loginit : Bool) (ngen : Nat) (nrep : Nat) : List Int :=
   (List.range nrep).flatMap (fun (r : Nat) =>
     List.replicate (1 + (if loginit then 1 else 0) + 8 * ngen) (rep0 + Int.ofNat r + 1))
+
+/-- the part of the trace of one `evolve` call the Spec speaks about: without the optional
+    initialisation event and, when `loginit = false`, without log entries of the initial evaluation -/
+def specBody (loginit : Bool) (trace : List (Event V)) : List (Event V) :=
+  let body := match trace with
+    | e :: rest => if e.kind == EvKind.init then rest else trace
+    | [] => trace
+  if loginit then body else dropInitLogs body
+
+/-- **replicate-counter clause of the Spec** ("logging ... independent replicates"): the replicate
+    number every call of the trace sees (`lbook.rep`) is constant within a replicate and grows by
+    exactly one from each replicate to the next (whatever its value before the call was) -/
+def repsOK (loginit : Bool) (ngen nrep : Nat) (reps : List Int) : Bool :=
+  match reps with
+  | [] => true
+  | r0 :: _ => reps == repsOf (r0 - 1) loginit ngen nrep
+
+/-- the complete run-time oracle: call protocol (`specTrace`) and replicate counter (`repsOK`) -/
+def specFull (R : Item V → Item V → Bool) (nrep ngen : Nat) (loginit : Bool)
+    (V0given : List (Option V)) (trace : List (Event V)) : Bool :=
+  specTrace R nrep ngen loginit V0given trace &&
+    repsOK loginit ngen nrep ((specBody loginit trace).map (fun e => e.rep))
 
 end spec
 end Program
